@@ -60,6 +60,8 @@ type Net struct {
 	Sent []*Envelope
 	// Delivered is every envelope handed to a receiver, in order.
 	Delivered []*Envelope
+	// Attempts is every message handed to SendMsg, whatever the outcome (undecoded form).
+	Attempts []*Envelope
 	// SendAttempts counts SendMsg calls per directed link (including failed ones).
 	SendAttempts map[linkKey]int
 
@@ -375,6 +377,7 @@ func (s *sender) SendMsg(ctx context.Context, m gsmsg.GraphSyncMessage) error {
 	n.mu.Lock()
 	idx := n.SendAttempts[k]
 	n.SendAttempts[k] = idx + 1
+	n.Attempts = append(n.Attempts, &Envelope{Seq: -1, From: s.e.ID, To: s.to, Msg: m})
 	pol := n.SendPolicy
 	n.mu.Unlock()
 	out := SendOK
